@@ -248,6 +248,10 @@ def n_install_ninja(sym: str) -> bool:
     pre.directory = True
     env.install_dirs = dict(old)
     env.install_dirs[InstallRoot.prefix] = pre
+    if param('dirs_reversed', False):
+        # a toolchain file can re-insert entries: the mapping's own order is not the dependency
+        # order of the roots (bindir -> exec_prefix -> prefix), which Ninja needs at read time
+        env.install_dirs = dict(reversed(list(env.install_dirs.items())))
     dict.__setitem__(env.variables, 'DESTDIR', '/stage' + dest)
     try:
         build = BuildInputs(env, Path('build.bfg', Root.srcdir))
